@@ -1150,6 +1150,10 @@ class Interp:
             a = E.find_attr(base.cls, name)
             if a is not None and a["k"] == "func":
                 return VFunc(a["v"], base)
+            if getattr(E, "auto_opaque", False):
+                # data attribute of an exception raised through a contract: unconstrained
+                base.fields[name] = VOpaque("lib:" + name, st.fresh_int("exc_" + name))
+                return base.fields[name]
             raise Unsupported("exception attribute %s.%s" % (base.cls, name))
         if isinstance(base, VNone):
             if fr.spec:
